@@ -549,7 +549,29 @@ theorem stepV {env : Env} {file : AFile} {G : List String} {P : Prog} {F : GFile
           have hgt : goTy (.struct sn) = .name (gid sn) := by simp [goTy]
           rw [hgt]
           exact ⟨η, η.le_refl, _, gw, hgo, hv, hT, hw, fun _ => ⟨rfl, rfl⟩⟩
-  | tuple items ty => simp [fragC] at hfrag
+  | tuple items ty =>
+    simp only [fragC] at hfrag
+    cases ty with
+    | tuple ts =>
+      simp only [Bool.and_eq_true] at hfrag
+      obtain ⟨hargs, htt⟩ := hfrag
+      obtain ⟨vs, gvs, hrelA, hgF, hsA⟩ := tfields_both P hl.ty hrel 0 hargs
+      obtain ⟨h1, h2, _, hlen⟩ := toGVs_of_args hrelA
+      have hts := tysOfVals_hasTys vs ts h2
+      have hshape : compileCExpr env (.tuple items (.tuple ts)) =
+          .slit (.struct (goTypeNameFor (.tuple ts)) (goTyFields 0 ts)) (tupleFields 0 (compileImms env items)) := by
+        simp [compileCExpr, tupleStructTy, goTy]
+      simp only [CExpr.toExpr, CExpr.annTy, hshape]
+      rw [Sem.eval]
+      rcases hsA n w with h2' | h2'
+      · rw [h2']; trivial
+      · rw [h2']; simp only
+        have hgo := ev_slit_struct (name := goTypeNameFor (.tuple ts)) (tfs := goTyFields 0 ts) (hgF gw)
+        rw [slit_tuple (hl.tupGo ts htt) hlen] at hgo
+        refine ⟨η, η.le_refl, _, gw, hgo, ?_, ?_, hw, fun _ => ⟨rfl, rfl⟩⟩
+        · simp [toGV, hts, h1, hlen]
+        · simp only [HasTy]; exact h2
+    | _ => exact absurd hfrag (by simp)
   | array items ty => simp [fragC] at hfrag
   | cget e c idx ty =>
     cases c with
@@ -650,6 +672,46 @@ theorem stepV {env : Env} {file : AFile} {G : List String} {P : Prog} {F : GFile
   | toDyn tr forTy e ty => simp [fragC] at hfrag
   | dynCall tr m recv args ty => simp [fragC] at hfrag
   | go e ty => simp [fragC] at hfrag
-  | proj e idx ty => simp [fragC] at hfrag
+  | proj e idx ty =>
+    simp only [fragC, Bool.and_eq_true] at hfrag
+    obtain ⟨he, hcase⟩ := hfrag
+    obtain ⟨v, gv, hs, hg, h3, h4⟩ := imm_both P hl.ty he hrel
+    cases hety : e.ty with
+    | tuple ts =>
+      rw [hety] at hcase h4; simp only [Bool.and_eq_true] at hcase
+      obtain ⟨⟨_, hnd0⟩, hidx⟩ := hcase
+      have hnd := of_decide_eq_true hnd0
+      cases hti : ts[idx]? with
+      | none => rw [hti] at hidx; cases hidx
+      | some t =>
+        rw [hti] at hidx; simp only at hidx
+        have hty' := scalarEq_eq hidx; subst hty'
+        cases v <;> simp only [HasTy] at h4 <;> try exact h4.elim
+        rename_i vs
+        simp only [toGV] at h3
+        cases hts : tysOfVals η vs with
+        | none => rw [hts] at h3; simp at h3
+        | some ts' =>
+          cases hgs : toGVs env η vs with
+          | none => rw [hts, hgs] at h3; simp at h3
+          | some gs =>
+            rw [hts, hgs] at h3; simp only [Option.some.injEq] at h3; subst h3
+            obtain ⟨vi, gi, hvi, hgi, hri, hti'⟩ := struct_field idx hgs h4 hti
+            have hlenG : gs.length = ts.length := by rw [toGVs_length hgs, hasTys_length h4]
+            simp only [CExpr.toExpr, compileCExpr, CExpr.annTy]
+            rw [Sem.eval]
+            rcases sem_imm_any hs (w := w) n with h1 | h1
+            · rw [h1]; trivial
+            · rw [h1]; simp only [hvi]
+              have hidxlt : idx < ts.length := by
+                rcases Nat.lt_or_ge idx ts.length with h | h
+                · exact h
+                · rw [List.getElem?_eq_none h] at hti; cases hti
+              have hni : (fieldNames 0 gs.length)[idx]? = some (fieldN idx) := by
+                rw [hlenG]; have := fieldNames_get 0 ts.length idx hidxlt; simpa using this
+              rw [← hlenG] at hnd
+              have hlk2 := lookup_zip _ gs idx (fieldN idx) gi hnd hni hgi
+              exact ⟨η, η.le_refl, gi, gw, ev_field_struct (hg gw) hlk2, hri, hti', hw, fun _ => ⟨rfl, rfl⟩⟩
+    | _ => rw [hety] at hcase; exact absurd hcase (by simp)
 
 end Goml.GoComp
